@@ -61,6 +61,8 @@ type caseOut struct {
 	Mutants     map[string]int    // clause -> mutants submitted
 	Errors      map[string]string // clause -> pool's error texts
 	Observed    map[string]string // non-deciding clause variants: what the pool did
+	Kinds       []string          // clause/variant of every judged mutant
+	PerAcc      int
 	ValidOK     bool
 	Violations  []viol
 	Incon       string
@@ -220,6 +222,7 @@ func (r *runner) submitMutant(clause, detail string, s spec, deciding bool, pre,
 		return
 	}
 	r.out.Mutants[key]++
+	r.out.Kinds = append(r.out.Kinds, clause+"/"+kindOf(detail))
 	if !strings.Contains(r.out.Errors[key], normErr(text)) {
 		r.out.Errors[key] += normErr(text) + "|"
 	}
@@ -239,6 +242,19 @@ func (r *runner) submitMutant(clause, detail string, s spec, deciding bool, pre,
 			Msg: fmt.Sprintf("%s: a %s whose clause [%s] is false (%s) entered the pool (reply ok=%v %q, in pool afterwards=%v)", r.out.Desc, r.out.Shape, clause, detail, ok, text, after[h]), Wit: w})
 		r.env.DelTxList([][]byte{[]byte(h)})
 	}
+}
+
+// kindOf reduces a mutant description to its variant (numbers and addresses removed).
+func kindOf(detail string) string {
+	var b strings.Builder
+	for _, f := range strings.Fields(detail) {
+		if strings.ContainsAny(f, "0123456789") && !strings.HasPrefix(f, "member") && f != "(20-byte" {
+			continue
+		}
+		b.WriteString(f)
+		b.WriteByte(' ')
+	}
+	return strings.TrimSpace(b.String())
 }
 
 func headerParsesAsGroup(h []byte) bool {
@@ -342,7 +358,7 @@ func runCase(in caseIn) *caseOut {
 		}
 	}
 	tier := tierOf(level, count, bytes)
-	out.Tier, out.PoolCount, out.PoolBytes = tier, count, bytes
+	out.Tier, out.PoolCount, out.PoolBytes, out.PerAcc = tier, count, bytes, perAcc
 	stateSet := r.poolSet()
 	if len(stateSet) != count {
 		out.Incon = "state setup: pool count differs"
@@ -688,10 +704,10 @@ func run(c *lib.Ctx) {
 		"proxied transactions (a blacklisted account inside a proxy-exec payload) belong to C31",
 		"expiry classes are generated away from the wall clock: time expiries are >= 3e9 s",
 		"types.SetBlockedAccountsForTest installs the blacklist once per child process before any pool exists")
-	n := c.N(80, 1600)
+	n := c.N(80, 12000)
 	per := 4
 	if !c.Quick() {
-		per = 25
+		per = 50
 	}
 	var batches []batchIn
 	var cur batchIn
@@ -769,7 +785,11 @@ func run(c *lib.Ctx) {
 			c.Violation(o.Idx, v.Shape, v.Wit, "%s", v.Msg)
 		}
 		c.Seen("pool_states", fmt.Sprintf("%d/%d/%v/%d", o.PoolCount, o.PoolBytes/100000, o.LevelFee, o.Tier))
-		fp := lib.Fingerprint(map[string]any{"s": o.Shape, "t": o.Tier, "l": o.LevelFee, "e": o.Errors})
+		sort.Strings(o.Kinds)
+		fp := lib.Fingerprint(map[string]any{"s": o.Shape, "t": o.Tier, "l": o.LevelFee, "e": o.Errors, "k": o.Kinds, "n": o.PoolCount, "p": o.PerAcc})
+		for _, k := range o.Kinds {
+			c.Seen("mutant_variants", k)
+		}
 		var sample any
 		if o.Idx < 3 {
 			sample = map[string]any{"case": o.Desc, "candidate": o.Shape, "mutants": o.Mutants, "pool_replies": o.Errors}
